@@ -79,14 +79,16 @@ def literals(src, limit=24):
 CAPS = dict(quick=dict(max_steps=60000, max_effects=120), thorough=dict(max_steps=400000, max_effects=600))
 
 
-def run_vm(code, env_seed, lits=(), funcs=None, meta=None, max_steps=60000, max_effects=120, prog=None, soft=False):
+def run_vm(code, env_seed, lits=(), funcs=None, meta=None, max_steps=60000, max_effects=120, prog=None, soft=False, path=False):
     """-> dict(status, effects, events, stat, steps) ; status 'unmodelled' if the machine cannot execute it"""
     try:
         vm = VM(prog or code, Env(env_seed, lits), funcs=funcs, meta=meta, max_steps=max_steps, max_effects=max_effects, soft=soft)
+        if path:
+            vm.path = []
         st = vm.run()
     except Unmodelled as e:
-        return dict(status="unmodelled", reason=str(e), effects=[], events=[], stat={}, steps=0)
-    return dict(status=st, effects=vm.effects, events=vm.events, stat=vm.stat, steps=vm.steps, pc=vm.pc, env_reads=vm.env.reads)
+        return dict(status="unmodelled", reason=str(e), effects=[], events=[], stat={}, steps=0, path=[])
+    return dict(status=st, effects=vm.effects, events=vm.events, stat=vm.stat, steps=vm.steps, pc=vm.pc, env_reads=vm.env.reads, path=vm.path)
 
 
 def run_ref(src, env_seed, lits=(), max_steps=60000, max_effects=120, modules=None):
